@@ -4,6 +4,7 @@ package composite
 
 import (
 	"fmt"
+	"strings"
 	"testing"
 
 	sim "metacontroller/pkg/verifsim"
@@ -263,4 +264,119 @@ func runC06(t *testing.T, cell c06Cell) {
 		}
 	}
 	rep.Case("C06", id, nsync > 0, id, map[string]interface{}{"cell": cell, "syncs": nsync, "requestsOnTarget": len(onTarget), "syncErrors": len(syncErrs)})
+}
+
+// Two child resources that share their Kind but live in different API groups, each with its own
+// update method: every differing child is changed by the method of *its* resource.
+func TestVerif_C06_SameKindTwoGroups(t *testing.T) {
+	methods := []string{"<nil>", "OnDelete", "Recreate", "InPlace", "RollingRecreate", "RollingInPlace"}
+	for _, ma := range methods {
+		for _, mb := range methods {
+			if ma == mb {
+				continue
+			}
+			for _, order := range []string{"ab", "ba"} {
+				ma, mb, order := ma, mb, order
+				id := fmt.Sprintf("c06-samekind-%s-%s-%s", strings.Trim(ma, "<>"), strings.Trim(mb, "<>"), order)
+				if !sim.WantCase(id) {
+					continue
+				}
+				t.Run(id, func(t *testing.T) {
+					t.Parallel()
+					runC06SameKind(t, id, ma, mb, order)
+				})
+			}
+		}
+	}
+}
+
+func runC06SameKind(t *testing.T, id, ma, mb, order string) {
+	rep := sim.R()
+	rep.Begin("C06", id)
+	uid := uniqueID("g")
+	kinds := []kindCfg{{Kind: "Widget", Method: ma}, {Kind: "AltWidget", Method: mb}}
+	if order == "ba" {
+		kinds[0], kinds[1] = kinds[1], kinds[0]
+	}
+	sc := &scenario{ID: uid, Kinds: kinds}
+	ka := kidCfg{Kind: "Widget", Name: "target-" + uid, Value: "v1"}
+	kb := kidCfg{Kind: "AltWidget", Name: "target-" + uid, Value: "v1"}
+	sc.Kids = []kidCfg{ka, kb}
+	r := prepareScenario(sc)
+	defer r.close()
+	r.w.caseID = id
+	s := r.w.sim
+	s.MustCreate(sim.WidgetInfo.GVR(), r.asCreatedByMC(ka, "old"))
+	s.MustCreate(sim.AltWidgetInfo.GVR(), r.asCreatedByMC(kb, "old"))
+	if err := r.w.start(); err != nil {
+		inconclusive(t, "C06", id, err)
+		return
+	}
+	defer r.w.flushCounters("C06")
+	type tally struct{ upd, del, cre, other int }
+	got := map[string]*tally{"Widget": {}, "AltWidget": {}}
+	var log []string
+	nsync := 0
+	for round := 0; round < 5; round++ {
+		if round > 0 {
+			r.w.q.Add(sc.parentKey())
+		}
+		syncs, ok := r.w.round()
+		if !ok {
+			inconclusive(t, "C06", id, r.w.watchdog)
+			return
+		}
+		for _, sr := range syncs {
+			nsync++
+			for _, q := range sr.Requests {
+				if q.Actor != "mc" || !q.Mutating() {
+					continue
+				}
+				var tl *tally
+				switch q.GVR {
+				case sim.WidgetInfo.GVR():
+					tl = got["Widget"]
+				case sim.AltWidgetInfo.GVR():
+					tl = got["AltWidget"]
+				default:
+					continue
+				}
+				log = append(log, fmt.Sprintf("sync %d: %s", nsync, q.String()))
+				switch q.Verb {
+				case "update":
+					tl.upd++
+				case "delete":
+					tl.del++
+				case "create":
+					tl.cre++
+				default:
+					tl.other++
+				}
+			}
+		}
+	}
+	for _, kc := range []struct{ name, method string }{{"Widget", ma}, {"AltWidget", mb}} {
+		tl := got[kc.name]
+		bad := ""
+		switch kc.method {
+		case "<nil>", "", "OnDelete":
+			if tl.upd+tl.del+tl.cre+tl.other > 0 {
+				bad = "must be neither updated nor deleted"
+			}
+		case "Recreate", "RollingRecreate":
+			if tl.upd+tl.other > 0 || tl.del == 0 {
+				bad = "must be deleted and recreated, never updated in place"
+			}
+		case "InPlace", "RollingInPlace":
+			if tl.del+tl.cre > 0 || tl.upd == 0 {
+				bad = "must be updated in place, never deleted"
+			}
+		}
+		if bad != "" {
+			rep.Violation("C06", id, fmt.Sprintf("samekind:wrong-method:%s:own=%s:other=%s", kc.name, strings.Trim(kc.method, "<>"), strings.Trim(map[string]string{"Widget": mb, "AltWidget": ma}[kc.name], "<>")),
+				fmt.Sprintf("%s (group %s) has update method %q and %s; saw %d update(s), %d delete(s), %d create(s), %d other", kc.name, kindInfo(kc.name).Group, kc.method, bad, tl.upd, tl.del, tl.cre, tl.other),
+				map[string]interface{}{"methods": []string{ma, mb}, "order": order, "requests": log})
+		}
+	}
+	rep.Case("C06", id, nsync > 0, id, map[string]interface{}{"widget": ma, "altwidget": mb, "order": order, "syncs": nsync})
 }
